@@ -42,6 +42,10 @@ class Check(PropertyCheck):
         "signal asynchrony is modelled at the granularity of counted system calls (a signal arrives immediately before a call of the "
         "main thread, or before a read()/write() of a worker thread while the main thread is in sigsuspend()); arrival between two "
         "instructions and two handled signals arriving together (caught_index keeps the last) are not modelled",
+        "a write() failing with EFBIG / EPIPE is modelled with the accompanying SIGXFSZ / SIGPIPE (blocked in every thread, promoted by "
+        "the failing worker's bailout(), taken by the main thread after cleanup() because halt() waits with the mask saved by cli() - "
+        "regenerated fact fatal_signals_blocked_in_halt); tied by FI_ERRNO+FI_SIGNAL_TOO plans and by genuine RLIMIT_FSIZE runs "
+        "(prlimit); inherited SIG_IGN for these signals is not modelled",
         "work() is abstracted to the sequence of read()/write() calls it makes and its final verdict (recorded from a fault-free run)",
         "POSIX semantics of open(O_CREAT|O_EXCL), unlink, close, f*; a failed close() is assumed to have lost data",
     ]
@@ -169,11 +173,42 @@ class Check(PropertyCheck):
         return real, pts
 
     @staticmethod
+    def split_chunk(lines, k, limit):
+        """CODEC lines with the k-th written chunk cut at the file-size limit; returns (lines, index of the failing write)."""
+        out, n_fail = [], k
+        for ln in lines:
+            w = ln.split(" ")
+            head, evs = w[:4], w[4:]
+            cum, idx, new = 0, 0, []
+            for ev in evs:
+                if ev.startswith("W"):
+                    idx += 1
+                    data = ev[1:]
+                    sz = len(data) // 2
+                    if idx == k and cum < limit < cum + sz:
+                        part = limit - cum
+                        new += ["W" + data[:2 * part], "W" + data[2 * part:]]
+                        n_fail = k + 1
+                    else:
+                        new.append(ev)
+                    cum += sz
+                else:
+                    new.append(ev)
+            out.append(" ".join(head + new))
+        return out, n_fail
+
+    @staticmethod
     def model_kind(call, cls):
         return call + "-stdout" if cls == "stdout" else call
 
     def run_plan(self, scn, call, cls, n, act, val, d):
-        if act == "F":
+        if act == "L":
+            # a genuine file-size limit: the kernel cuts the write that crosses it short and fails the next one with
+            # EFBIG + SIGXFSZ for the writing thread
+            return fl.run_real(self.exe, scn, d, wrapper=["prlimit", "--fsize=%d" % val])
+        if act == "FS":
+            env = faultlib.fi_env(call=call, fdclass=cls, nth=n, err=val, signal_too=True)
+        elif act == "F":
             env = faultlib.fi_env(call=call, fdclass=cls, nth=n, err=val)
         elif val == "KILL":
             env = faultlib.fi_env(call=call, fdclass=cls, nth=n, kill=True)
@@ -202,15 +237,41 @@ class Check(PropertyCheck):
                     jobs.append((name, scn, call, cls, n, "R", sn))
                     if sub:
                         self.sub_points.add((name, call, cls, n))
+                if call == "write" and cls == "file":
+                    # the errno comes with its signal, as from the kernel: EFBIG + SIGXFSZ, EPIPE + SIGPIPE
+                    jobs.append((name, scn, call, cls, n, "FS", 27))
+                    jobs.append((name, scn, call, cls, n, "FS", 32))
         # model: fault-free cases + one case per plan
         texts = []
         lines = {name: self.codec_lines(scn) for name, scn, _ in clean}
+        # genuine RLIMIT_FSIZE runs: a limit inside the k-th chunk work() writes (single file operand scenarios)
+        nlimit = 0
+        for name, scn, real in clean:
+            if name not in ("compress", "compress-k", "decompress", "decompress-k", "compress-large", "decompress-large"):
+                continue
+            sizes = []
+            for ln in lines[name]:
+                sizes = [len(ev) // 2 for ev in ln.split(" ")[4:] if ev.startswith("W")]
+            cum = 0
+            for k, sz in enumerate(sizes, 1):
+                if k <= 6 or k == len(sizes):
+                    jobs.append((name, scn, "write", "file", k, "L", cum + (sz // 2 if sz > 1 else 0)))
+                    nlimit += 1
+                cum += sz
+        hist["rlimit_fsize_runs"] = nlimit
         for bi, (name, scn, real) in enumerate(clean):
             texts.append(fl.case_text("clean%d" % bi, scn, lines[name]))
         for ji, (name, scn, call, cls, n, act, val) in enumerate(jobs):
             s2 = dict(scn)
-            s2["plan"] = (self.model_kind(call, cls), n, act, val)
-            texts.append(fl.case_text("j%d" % ji, s2, lines[name]))
+            jl = lines[name]
+            if act == "L":
+                # the kernel completes the part of the crossing write that fits (short count); xwrite() then issues the rest,
+                # which fails with EFBIG: in the model the chunk is split in two and the second part fails
+                jl, n_fail = self.split_chunk(lines[name], n, val)
+                s2["plan"] = ("write", n_fail, "F", 27)
+            else:
+                s2["plan"] = (self.model_kind(call, cls), n, "R" if act == "R" else "F", val)
+            texts.append(fl.case_text("j%d" % ji, s2, jl))
         model = fl.run_model("".join(texts))
 
         def one(ji):
@@ -287,7 +348,8 @@ class Check(PropertyCheck):
         self.lost_term = lost_term
         return {
             "evaluations": len(jobs) + len(clean), "distinct_nontrivial": len(nontriv),
-            "rule": "for each base scenario (compress/decompress of a FILE operand with and without -k, -f over an existing output, "
+            "rule": "(plus: every write() on a FILE output failing with EFBIG+SIGXFSZ and EPIPE+SIGPIPE as the kernel does it, and "
+                    "genuine runs under RLIMIT_FSIZE (prlimit) with the limit inside each of the first chunks written) for each base scenario (compress/decompress of a FILE operand with and without -k, -f over an existing output, "
                     "corrupt input, two operands, setuid mode, -c) EVERY occurrence of read/write/close/open/unlink/fchown/fchmod/"
                     "futimens on the operand files (and write/close on stdout) logged in a fault-free run is hit once with each of "
                     "EIO, ENOSPC, EACCES (call fails) and SIGINT, SIGTERM, SIGKILL (raised at the call); final listing, exit "
@@ -363,8 +425,10 @@ class Check(PropertyCheck):
                     if pairing_example is None:
                         pairing_example = (name, scn, [call, cls, n, act, val], real)
             for pb in probs[:2]:
-                viols.append(Violation("c16:data-loss:%s" % call, "scenario %s, `lbzip2 %s`, %s #%d %s %s: %s" % (
-                    name, " ".join(fl.argv_of(scn)), call, n, "fails with errno" if act == "F" else "raises SIG", val, pb),
+                viols.append(Violation("c16:data-loss:%s" % ("rlimit-fsize" if act == "L" else call), "scenario %s, `lbzip2 %s`, %s #%d %s %s: %s" % (
+                    name, " ".join(fl.argv_of(scn)), call, n,
+                    {"F": "fails with errno", "FS": "fails, with its signal, with errno", "R": "raises SIG",
+                     "L": "hits RLIMIT_FSIZE ="}[act], val, pb),
                     {"scenario": fl.scn_brief(scn), "argv": fl.argv_of(scn), "plan": [call, cls, n, act, val], "name": name,
                      "exit": real["outcome"], "after": [fl.short(e) for e in real["listing"]]}))
         self.notes.append("status/state pairing: %d injected runs ended with exit 1 or death by INT/TERM although the last operand was "
